@@ -93,6 +93,33 @@ def rule_eq_totality(check, rule, rule_hash):
                 foreign = [r for r in reads if r in own]
                 if foreign and not guarded:
                     problems.append(('attr', 'reads other.%s without a dominating isinstance(other, %s) test' % (sorted(foreign)[0], ci.name)))
+            # (c) an 'equal' verdict behind the isinstance guard must have compared the
+            # added slot of *both* operands (otherwise a == b and b == a can differ)
+            selft = ('P', pos[0])
+            slots_ = added_slots(ci) or []
+            for p in paths:
+                if p.status != 'return':
+                    continue
+                guarded = any(atom[0] == 'isinstance' and atom[1] == ot and pol and ci.name in str(atom[2]) for atom, pol in p.lits)
+                if not guarded:
+                    continue
+                v = p.value
+                both = False
+                for t in [v] + [x for atom, pol in p.lits for x in atom[1:] if isinstance(x, tuple)]:
+                    ms = any(isinstance(s_, tuple) and s_[0] == 'A' and s_[1] == selft and s_[2] in slots_ for s_ in subterms(t))
+                    mo = any(isinstance(s_, tuple) and s_[0] == 'A' and s_[1] == ot and s_[2] in slots_ for s_ in subterms(t))
+                    if ms and mo:
+                        both = True
+                if v == K(True) or (v[0] == 'COND' and not both):
+                    # verdict True reached: which slot tests led here?
+                    one_sided = [show_lit((atom, pol)) for atom, pol in p.lits
+                                 if any(isinstance(s_, tuple) and s_[0] == 'A' and s_[1] in (selft, ot) and s_[2] in slots_
+                                        for x in atom[1:] if isinstance(x, tuple) for s_ in subterms(x))
+                                 and not (any(isinstance(s_, tuple) and s_[0] == 'A' and s_[1] == selft for x in atom[1:] if isinstance(x, tuple) for s_ in subterms(x))
+                                          and any(isinstance(s_, tuple) and s_[0] == 'A' and s_[1] == ot for x in atom[1:] if isinstance(x, tuple) for s_ in subterms(x)))]
+                    if v == K(True) and one_sided and not both:
+                        problems.append(('sym', 'declares two %s objects equal after looking at the added slot of one operand only (%s): '
+                                                'a == b and b == a can differ' % (ci.name, one_sided[0][:80])))
             key = '%s|__eq__' % ci.key
             st = site_of(eq, eq.node)
             if problems:
@@ -173,6 +200,24 @@ def rule_replace_and_slots(check, rule, classes=UPGRADED):
                                             witness='mask()/embed() results lose %s: AttributeError on access' % s_)
                         continue
                     v = stores[s_]
+                    if mname == 'replace' and v[0] == 'IF':
+                        # `x = self.x if <arg> is UNSET else <arg>`: the argument tested must be the one selected
+                        c = v[1]
+                        tested = None
+                        if c[0] == 'lit' and c[1][0] in ('is', 'eq', 'isnone'):
+                            for x in c[1][1:]:
+                                if isinstance(x, tuple) and x[0] == 'P' and x != selft:
+                                    tested = x
+                        chosen = [x for x in (v[2], v[3]) if x[0] == 'P' and x != selft]
+                        if tested is not None and chosen and tested not in chosen:
+                            k3 = k + '|selection'
+                            if k3 not in seen:
+                                seen.add(k3)
+                                check.violation(rule, site_of(m, m.node), '%s.replace selects the value of %r by testing the argument %r but then '
+                                                'uses the argument %r' % (cname, s_, tested[1], chosen[0][1]), key=k3, effect=show(v)[:160],
+                                                witness='p.replace(%s=x) must store x; p.replace(%s=y) must keep %s'
+                                                        % (chosen[0][1], tested[1], s_))
+                            continue
                     if mname == 'replace':
                         # defaults to the receiver's value, overridden by the argument
                         from_self = mentions(v, ('A', selft, s_))
